@@ -1214,12 +1214,12 @@ class Expr:
             "floor",
             "logical_not",
             "sign",
-            "copysign",
             "conjugate",
             "asin_acos_kernel",
         }:
             return self.operands[0].get_type()
         elif self.kind in {
+            "copysign",
             "add",
             "subtract",
             "divide",
